@@ -118,24 +118,38 @@ func runC34(c *Ctx) {
 	lcQ := NewLockCtx(c.P, scopeQ)
 	if bl := c.MustFunc(pkgQuota + ":(*Quota).Blocked"); bl != nil {
 		c.Analysed(bl)
-		for _, ci := range callsIn(bl, func(nm string, cc *ssa.CallCommon) bool { return strings.HasSuffix(nm, "x/time/rate.NewLimiter") }) {
+		var newLim []ssa.CallInstruction
+		for _, part := range deepFuncs(bl, 1) {
+			newLim = append(newLim, callsIn(part, func(nm string, cc *ssa.CallCommon) bool { return strings.HasSuffix(nm, "x/time/rate.NewLimiter") })...)
+		}
+		for _, ci := range newLim {
 			a0, a1 := ci.Common().Args[0], ci.Common().Args[1]
 			c.Check("quota-params", "NewLimiter(Limit(eps), burst)@Blocked", ci, fieldPath(strip(a0), "eps") && fieldPath(strip(a1), "burst"),
 				"a bucket's limiter must refill at the configured events per second and allow the configured burst (derived: "+PathOf(strip(a0))+", "+PathOf(strip(a1))+")")
 		}
 		var keys []ssa.Value
-		for _, ci := range callsIn(bl, func(nm string, cc *ssa.CallCommon) bool {
-			return strings.HasSuffix(nm, "lru.Cache).Get") || strings.HasSuffix(nm, "lru.Cache).Add")
-		}) {
-			keys = append(keys, strip(ci.Common().Args[1]))
-			held := lcQ.At(ci)
-			ok := false
-			for p := range held {
-				if strings.HasSuffix(p, ".mu") {
-					ok = true
+		for _, part := range deepFuncs(bl, 1) {
+			part := part
+			scan := func() {
+				for _, ci := range callsIn(part, func(nm string, cc *ssa.CallCommon) bool {
+					return strings.HasSuffix(nm, "lru.Cache).Get") || strings.HasSuffix(nm, "lru.Cache).Add")
+				}) {
+					keys = append(keys, strip(ci.Common().Args[1]))
+					held := lcQ.At(ci)
+					ok := false
+					for p := range held {
+						if strings.HasSuffix(p, ".mu") {
+							ok = true
+						}
+					}
+					c.Check("quota-params", methodName(ci.Common())+"-under-mu@Blocked", ci, ok, "the bucket cache is not goroutine-safe and must be accessed under q.mu")
 				}
 			}
-			c.Check("quota-params", methodName(ci.Common())+"-under-mu@Blocked", ci, ok, "the bucket cache is not goroutine-safe and must be accessed under q.mu")
+			if part == bl {
+				scan()
+			} else if !withCalleeBound(part, scan) {
+				scan()
+			}
 		}
 		same := len(keys) == 2 && keys[0] == keys[1]
 		if same {
@@ -188,26 +202,40 @@ func runC34(c *Ctx) {
 			}
 		})
 		c.CheckAt("window-boundary", "cut=now-interval@expire", c.P.Pos(exp.Pos()), cut != nil, "the window must start at now − interval")
-		// the expiry test: times[head] - cut < 0 (strict)
-		nT := 0
-		for _, e := range IfEdges(exp) {
-			cond, truth := e.Cond()
-			bo, ok := cond.(*ssa.BinOp)
-			if !ok || !truth {
-				continue
+		// the expiry test: a slot is dropped only behind times[head] - cut < 0 (strict), whichever way
+		// the loop spells it (loop condition, or `if … >= 0 { break }`)
+		var drop ssa.Instruction
+		eachInstr(exp, func(in ssa.Instruction) {
+			if st, ok := in.(*ssa.Store); ok && fieldPath(st.Addr, "total") {
+				drop = in
 			}
-			d, isD := bo.X.(*ssa.BinOp)
-			if !isD || d.Op != token.SUB || cut == nil || d.Y != cut {
-				continue
-			}
-			nT++
-			k, isK := constInt(bo.Y)
-			fromTimes := strings.Contains(PathOf(d.X), ".times[")
-			c.Check("window-boundary", "times[head]-cut<0@expire", lastInstr(e.From), bo.Op == token.LSS && isK && k == 0 && fromTimes,
-				"an entry expires only when it is strictly older than now − interval (an entry exactly interval old is still in the trailing window); found operator "+bo.Op.String())
-		}
-		if nT == 0 {
-			c.Undecided("window-boundary", "expire", "expiry comparison not recognised")
+		})
+		if drop == nil {
+			c.Undecided("window-boundary", "expire", "no store to the running sum found")
+		} else {
+			found := ""
+			g, ns := MustCross(drop, func(e Edge, cond ssa.Value, truth bool) bool {
+				bo, ok := cond.(*ssa.BinOp)
+				if !ok {
+					return false
+				}
+				d, isD := bo.X.(*ssa.BinOp)
+				if !isD || d.Op != token.SUB || cut == nil || d.Y != cut || !strings.Contains(PathOf(d.X), ".times[") {
+					return false
+				}
+				k, isK := constInt(bo.Y)
+				if !isK || k != 0 {
+					return false
+				}
+				op := bo.Op
+				if !truth {
+					op = map[token.Token]token.Token{token.LSS: token.GEQ, token.GEQ: token.LSS, token.LEQ: token.GTR, token.GTR: token.LEQ, token.EQL: token.NEQ, token.NEQ: token.EQL}[op]
+				}
+				found += " " + op.String()
+				return op == token.LSS
+			})
+			c.Check("window-boundary", "times[head]-cut<0@expire", drop, g && ns > 0,
+				"an entry expires only when it is strictly older than now − interval (an entry exactly interval old is still in the trailing window); comparisons found on the way to the drop:"+found)
 		}
 		// conservation on expire: total -= counts[head] in the loop body, and the slot is zeroed
 		sub, zero, adv := false, false, false
@@ -226,10 +254,8 @@ func runC34(c *Ctx) {
 					zero = true
 				}
 			case fieldPath(st.Addr, "head"):
-				if bo, isB := st.Val.(*ssa.BinOp); isB && bo.Op == token.ADD && fieldPath(bo.X, "head") {
-					if k, isK := constInt(bo.Y); isK && k == 1 {
-						adv = true
-					}
+				if ringNext(st.Val, func(x ssa.Value) bool { return fieldPath(x, "head") }, 4) {
+					adv = true
 				}
 			}
 		})
@@ -260,10 +286,7 @@ func runC34(c *Ctx) {
 			case strings.Contains(PathOf(st.Addr), ".times["):
 				timeNow = st.Val == ssa.Value(add.Params[1])
 			case fieldPath(st.Addr, "tail"):
-				tailMod = derivesFrom(st.Val, 3, func(x ssa.Value) bool {
-					bo, isB := x.(*ssa.BinOp)
-					return isB && bo.Op == token.REM
-				})
+				tailMod = ringNext(st.Val, func(x ssa.Value) bool { return fieldPath(x, "tail") }, 4)
 			}
 		})
 		c.CheckAt("sum-conserved", "counts[tail]+=n;total+=n@add", c.P.Pos(add.Pos()), toCounts && toTotal,
